@@ -371,7 +371,7 @@ class LiaDomain:
         return r
 
     # ---- SMT emission
-    def emit(self, decl, bounds, hyps, goal, slice_hyps=True, nia=False):
+    def emit(self, decl, bounds, hyps, goal, slice_hyps=True, nia=False, wide=None):
         """returns SMT-LIB text asserting hyps and (not goal).  nia=True keeps products of atoms as real
         products (QF_NIA) instead of linearising them -- used for the few lemmas about whole products."""
         hyps = list(hyps)
@@ -391,7 +391,7 @@ class LiaDomain:
             return f
         hyps = [as_hyp(h) for h in hyps]
         if slice_hyps:
-            hyps = slice_context(hyps, goal)
+            hyps = slice_context(hyps, goal, wide)
         mons = {}
         niaatoms = set()
 
@@ -565,7 +565,7 @@ def _formula_atoms(f):
 WIDE = 48
 
 
-def slice_context(hyps, goal):
+def slice_context(hyps, goal, wide=None):
     """cone of influence: keep hypotheses transitively sharing a variable with the goal"""
     want = set(formula_atoms(goal))
     if not want:
@@ -580,9 +580,25 @@ def slice_context(hyps, goal):
                 keep[i] = True
                 # a very wide hypothesis (a sum over a whole digit array, say) is kept but does not make
                 # everything it mentions relevant
-                if not vs <= want and len(vs) <= WIDE:
+                if not vs <= want and len(vs) <= (wide or WIDE):
                     want |= vs
                     changed = True
+                elif not vs <= want:
+                    # of a wide hypothesis only the definitional names (quotient/remainder pairs) become relevant:
+                    # their defining equations must come along, the bulk summands need only their ranges
+                    extra = {a for a in vs if isinstance(a, str) and a[:2] in ("q!", "r!")} - want
+                    if extra:
+                        want |= extra
+                        changed = True
+    # range facts (one-variable hypotheses) of every variable that a kept hypothesis mentions: a wide sum is useless
+    # without the ranges of its summands
+    mentioned = set()
+    for vs, k in zip(hv, keep):
+        if k:
+            mentioned |= vs
+    for i, vs in enumerate(hv):
+        if not keep[i] and len(vs) == 1 and vs <= mentioned:
+            keep[i] = True
     return [h for h, k in zip(hyps, keep) if k]
 
 
